@@ -4,6 +4,9 @@
 (*   Call{ep, shape}                written and flushed BEFORE the real code is entered             *)
 (*   Decoded{ep, accepted}          Vouch's own decoder returned (entry points that call it directly)*)
 (*   Use{ep, use, outcome}          a consumer of the decoded value ran: lookup | register | auction *)
+(*   Aux{ep, req, at, answer, delivered}  the real code made the auxiliary request req at provider `at`  *)
+(*                                  (logged by the fake provider when it is really called) and was   *)
+(*                                  given `answer`; delivered = value | fault: what it got back         *)
 (*   Outcome{ep, outcome}           the duty ended: ok | error | fallback (only accepted once the    *)
 (*                                  input was consumed end to end: Robustness!Consumed)              *)
 (*   Undeliverable{ep}              the real library decoder does not deliver this (gated) shape    *)
@@ -41,6 +44,13 @@ TraceUse ==
     /\ pending.ep = Trace[l].ep
     /\ Use(Trace[l].use, Trace[l].outcome)
 
+\* the fake can only give the answer the model chose for this input, and a fault answer delivers a fault
+TraceAux ==
+    /\ IsEvent("Aux")
+    /\ pending.ep = Trace[l].ep
+    /\ Trace[l].delivered = AuxClass(Trace[l].answer)
+    /\ Aux([req |-> Trace[l].req, at |-> Trace[l].at, answer |-> Trace[l].answer])
+
 TraceOutcome ==
     /\ IsEvent("Outcome")
     /\ pending.ep = Trace[l].ep
@@ -56,7 +66,7 @@ TraceDecoderPanic ==
     /\ pending.ep = Trace[l].ep
     /\ DecoderPanic
 
-TraceNext == TraceReset \/ TraceCall \/ TraceDecoded \/ TraceUse \/ TraceOutcome \/ TraceUndeliverable \/ TraceDecoderPanic
+TraceNext == TraceReset \/ TraceCall \/ TraceAux \/ TraceDecoded \/ TraceUse \/ TraceOutcome \/ TraceUndeliverable \/ TraceDecoderPanic
 
 TraceSpec == TraceInit /\ [][TraceNext]_tvars
 
